@@ -125,6 +125,10 @@ class Procs(Part):
 
 class C01(Prop):
     id = 'C01'
+    registered = True
+    technique = 'Hypothesis-generated layer DAGs/faults/options run through the real Runner (children are real runner processes); stack invariant over the pid-tagged hook trace and over the printed lines'
+    level_text = 'Generated layer graphs (single/multiple inheritance, class/instance, any hook subset), fault placements (setUp/tearDown exception, NotImplementedError) and option sets (--layer,-x,--repeat,--shuffle,-j) are run; a state invariant (set-up set == test closure, bases before, derived torn down first, exactly one tear-down attempt, nothing after NotImplementedError, remaining layers in fresh processes) is checked at every event of every process.'
+    level_note = "Trusts the world runtime to log hooks faithfully; hook-less layers are only observed through the runner's own Set up/Tear down lines; MemoryError/EndRun paths are not driven."
     rule = ('Hypothesis worlds: layer DAG (2..6 layers, class/instance, multiple inheritance, any hook subset), '
             'setUp/tearDown faults (exception or NotImplementedError), tests spread over layers incl. the unit '
             'layer, options --layer/-x/--repeat/--shuffle/-j. Oracle: stack invariant over the per-pid hook trace '
